@@ -25,7 +25,7 @@ VARIANTS = [
     V("increments-off-by-one", SD, "for log_ratio_t_plus_1, log_ratio_t in zip(log_ratio[1:], log_ratio[:-1])]", "for log_ratio_t_plus_1, log_ratio_t in zip(log_ratio[1:], log_ratio[:1] * (len(log_ratio) - 1))]", rule="R18.6"),
     V("split-sizes", SD, "ys.split(split_size=(y0.size(1) - 1, 1), dim=2)", "ys.split(split_size=(y0.size(1) - 2, 2), dim=2)", rule="R18.6"),
     V("augment-two-columns", SD, "y0 = torch.cat((y0, y0.new_zeros(size=(y0.size(0), 1))), dim=1)", "y0 = torch.cat((y0, y0.new_zeros(size=(y0.size(0), 1)) + 1), dim=1)", rule="R18.4"),
-    V("stable-division-unguarded", CORE + "misc.py", "    b = torch.where(b.abs().detach() > epsilon, b, torch.full_like(b, fill_value=epsilon) * b.sign())\n    return a / b",
+    V("stable-division-unguarded", CORE + "misc.py", "    b = torch.where(b.abs().detach() > epsilon, b, torch.full_like(b, fill_value=epsilon).copysign(b))\n    return a / b",
       "    return a / (b + epsilon)", rule="R18.5"),
     # twins
     V("twin-half-form", BS, "    def f_diagonal(self, t, y: Tensor):\n        y = y[:, :-1]\n        f, g, h = self._base_f(t, y), self._base_g(t, y), self._base_h(t, y)\n        u = misc.stable_division(f - h, g)\n        f_logqp = .5 * (u ** 2).sum(dim=1, keepdim=True)",
@@ -33,4 +33,10 @@ VARIANTS = [
     V("log-ratio-squeezed-without-axis", SD, "        ).squeeze(dim=2)\n", "        ).squeeze()\n", rule="R18.6"),
     V("twin-increments-vectorised", SD, "        log_ratio_increments = torch.stack(\n            [log_ratio_t_plus_1 - log_ratio_t\n             for log_ratio_t_plus_1, log_ratio_t in zip(log_ratio[1:], log_ratio[:-1])], dim=0\n        ).squeeze(dim=2)\n",
       "        log_ratio = log_ratio.squeeze(dim=2)\n        log_ratio_increments = log_ratio[1:] - log_ratio[:-1]\n", expect="silent"),
+    # the defect repaired by c3f6f62: sign(0) = 0 leaves an exactly-zero divisor unguarded
+    V("stable-division-sign-of-zero", CORE + "misc.py", "torch.full_like(b, fill_value=epsilon).copysign(b))", "torch.full_like(b, fill_value=epsilon) * b.sign())", rule="R18.5"),
+    V("stable-division-one-sided", CORE + "misc.py", "    b = torch.where(b.abs().detach() > epsilon, b, torch.full_like(b, fill_value=epsilon).copysign(b))\n",
+      "    b = b.clamp_min(epsilon)\n", rule="R18.5"),
+    V("twin-stable-division-where-sign", CORE + "misc.py", "torch.full_like(b, fill_value=epsilon).copysign(b))",
+      "torch.where(b < 0, torch.full_like(b, fill_value=-epsilon), torch.full_like(b, fill_value=epsilon)))", expect="silent"),
 ]
